@@ -731,7 +731,9 @@ func (c *Ctx) rulesC08ver() {
 				fmt.Sprintf("a loop replaced after a handler deadline would deliver its stale result to the next, unrelated handler call; guards=%v", guardStrings(gs)))
 		}
 	}
-	visit(hl)
+	for _, hf := range c.hostedFns(hl) {
+		visit(hf)
+	}
 	if n < 1 {
 		c.undecided("C08.ver: no send on handlerEnd found in handlerLoop")
 	}
